@@ -85,13 +85,13 @@ func isCustom(d absKey) bool {
 	return ok && s == "CUSTOM"
 }
 
-// factoryKid is the custom kid keyfactory gives a key of material class "random": "kid-%08x" of the first draw of the
-// material stream (keyfactory.Material.Kid); computed here from a fresh generator, not read from the key.
-func factoryKid(d absKey) string {
+// customKid is the custom kid the driver gives keys of material `mat` whose parameters have the CUSTOM kid strategy (an
+// input of the constructor chosen here, so that KID() can be judged against it).
+func customKid(d absKey) string {
 	if !isCustom(d) {
 		return ""
 	}
-	return fmt.Sprintf("kid-%08x", vt.Rng(matStream(d.Mat)).Uint32())
+	return fmt.Sprintf("kid of material %d \u00e9\u4e16", d.Mat)
 }
 
 func factory(d absKey, params key.Parameters) (key.Key, error) {
@@ -104,12 +104,19 @@ func factory(d absKey, params key.Parameters) (key.Key, error) {
 		}
 		return nil, err
 	}
+	var o override
 	if isRSA(d.Kt) && d.Mat != 1 {
-		r, err := otherRSA(d.P.Int("modulusBits"), d.P.Int("exponent"), d.Mat)
-		if err != nil {
+		if o.rsa, err = otherRSA(d.P.Int("modulusBits"), d.P.Int("exponent"), d.Mat); err != nil {
 			return nil, err
 		}
-		return rebuild(k, override{rsa: r})
+	}
+	if isCustom(d) {
+		// keyfactory picks a custom kid of its own: replace it by the driver's
+		ck := customKid(d)
+		o.kid = &ck
+	}
+	if o.rsa != nil || o.kid != nil {
+		return rebuild(k, o)
 	}
 	return k, nil
 }
@@ -162,7 +169,7 @@ func build(d absKey, prev []built, descs []absKey) (b built) {
 			b.route = "factory"
 			fallthrough
 		default:
-			b.ckid = factoryKid(d)
+			b.ckid = customKid(d)
 			b.k, b.err = factory(d, b.params)
 		}
 	}); p {
